@@ -24,7 +24,7 @@ for d in /verif/seeded/*${1:-}*/; do
   res=""
   for id in $ids; do
     case "$id" in
-      C12) out=$(VERIF_REPO="$REPO2" VERIF_DIR="$V2" /verif/loom/run.sh C12 --tier quick 2>&1);;
+      C12) out=$(VERIF_REPO="$REPO2" VERIF_DIR="$V2" /verif/loom/run.sh C12 --tier quick 2>&1; VERIF_REPO="$REPO2" VERIF_DIR="$V2" "$V2/shuttle/run.sh" C12 --tier quick 2>&1);;
       C12S|C07S|C08S) out=$(VERIF_REPO="$REPO2" VERIF_DIR="$V2" "$V2/shuttle/run.sh" ${id%S} --tier quick 2>&1);;
       C07L|C08L) out=$(VERIF_REPO="$REPO2" VERIF_DIR="$V2" /verif/loom/run.sh ${id%L} --tier quick 2>&1);;
       *) BIN=muxsim; case "$id" in C01|C14|C19) BIN=syssim;; esac
